@@ -4,6 +4,7 @@ import json, os, glob
 ROOT = os.path.dirname(os.path.abspath(__file__))
 props = [json.loads(l) for l in open(os.path.join(ROOT, "properties.jsonl"))]
 ids = [p["id"] for p in props]
+ACCEPTED = set(l.strip() for l in open(os.path.join(ROOT, "accepted_checks.txt")) if l.strip() and not l.startswith("#"))
 checks, na = [], []
 for pid in ids:
     sp = os.path.join(ROOT, "checks", pid + ".json")
@@ -11,7 +12,7 @@ for pid in ids:
         na.append(dict(property_id=pid, reason="check not built yet in this session (planned, see DESIGN.md section 3); nothing is claimed for it"))
         continue
     s = json.load(open(sp))
-    if not s.get("ready"):
+    if pid not in ACCEPTED:
         na.append(dict(property_id=pid, reason="check under construction in this session (harness exists but has not yet been accepted after a full clean run); nothing is claimed for it yet"))
         continue
     if s.get("disabled"):
